@@ -84,6 +84,13 @@ type SpecFunc struct {
 type SpecParam struct{ Name, Type string }
 
 // ObjectSpec describes a monitor: the lock, what it guards, ghost fields, invariants.
+// InnerSpec: "inner <field>: <methods> from <functions>" (checked syntactically over the package's SSA).
+type InnerSpec struct {
+	Field    string
+	Mutators []string
+	From     []string
+}
+
 type ObjectSpec struct {
 	Pkg      string
 	Type     string   // struct type name
@@ -109,6 +116,7 @@ type ObjectSpec struct {
 	PubToken string   // owned ghost map: object -> invocation allowed to write
 	Via      map[string]string // sub-object type -> pointer field of that type naming the monitor object it belongs to
 	Owns     []string // pointer fields whose target objects are used only while this object's lock is held
+	Inner    []InnerSpec // wrapped objects reachable only through this one, with the functions allowed to mutate them
 }
 
 // Lemma is a pure formula proved once.
@@ -492,6 +500,18 @@ func ParseSpecFile(path, pkgPath string, ps *PkgSpec) error {
 				curO.Via = map[string]string{}
 			}
 			curO.Via[strings.TrimSpace(tn)] = strings.TrimSpace(fld)
+		case "inner":
+			// inner <field>: <mutating methods...> from <function keys...>: the object behind <field> is reachable only
+			// through this object, and only the listed functions call the listed methods on it
+			if curO == nil {
+				return fail(l.n, "inner outside object block")
+			}
+			fld, r2, ok := strings.Cut(rest, ":")
+			ms, from, ok2 := strings.Cut(r2, " from ")
+			if !ok || !ok2 {
+				return fail(l.n, "expected: inner <field>: <methods> from <functions>")
+			}
+			curO.Inner = append(curO.Inner, InnerSpec{Field: strings.TrimSpace(fld), Mutators: strings.Fields(ms), From: strings.Fields(from)})
 		case "owns":
 			if curO == nil {
 				return fail(l.n, "owns outside object block")
